@@ -13,10 +13,10 @@
 //                                     -> per token "varId,variable()->nameToken(),function()->tokenDef,enumerator()->name;" + " | h<hasDecl per distinct addr>"
 //   loc <nodes>                       node tree "depth:hexext,depth:hexext,..." (preorder; ext = text after the node type);
 //                                     AstNode::setLocations(tokenList, 0, 1, 1) -> "ok file:line:col;..." per node | "throw ast" | "throw conv"
-//   refs <lang> <hexdump>             parseClangAstDump, then every linked name token in list order:
+//   refs <lang> <hexfile> <hexdump>           parseClangAstDump, then every linked name token in list order:
 //                                        "ok K:hexstr:line:col:varId:defIndex ..."   K = D/U (variable decl token / use), F/C (function), E/N (enumerator)
 //                                     or "throw <class>"
-//   dump <lang> <hexdump>             parseClangAstDump, then the whole token list:
+//   dump <lang> <hexfile> <hexdump>           parseClangAstDump, then the whole token list:
 //                                        "ok <n> | idx:hexstr:file:line:col:link:parent:op1:op2:varId:varDef:funDef:enumDef ..." ('-' = null)
 #include "common.h"
 #include "clangimport.h"
@@ -201,10 +201,10 @@ static std::string errClass(const std::string& msg) {
     return "other:" + hex(msg.substr(0, 60));
 }
 
-static void import(Imported& im, const std::string& lang, const std::string& text) {
+static void import(Imported& im, const std::string& lang, const std::string& file0, const std::string& text) {
     im.settings.clang = true;
     TokenList tokenlist{im.settings, lang == "c" ? Standards::Language::C : Standards::Language::CPP};
-    tokenlist.appendFileIfNew(lang == "c" ? "t.c" : "t.cpp");
+    tokenlist.appendFileIfNew(file0);
     im.tokenizer.reset(new Tokenizer(std::move(tokenlist), im.logger));
     std::istringstream ast(text);
     try {
@@ -212,14 +212,17 @@ static void import(Imported& im, const std::string& lang, const std::string& tex
         im.outcome = "ok";
     } catch (const InternalError& e) {
         im.outcome = "throw " + errClass(e.errorMessage);
+    } catch (const std::runtime_error& e) {
+        const std::string w = e.what();
+        im.outcome = w.compare(0, 12, "converting '") == 0 ? std::string("throw conv") : "exception " + hex(w.substr(0, 60));
     } catch (const std::exception& e) {
         im.outcome = std::string("exception ") + hex(std::string(e.what()).substr(0, 60));
     }
 }
 
-static std::string runRefs(const std::string& lang, const std::string& text) {
+static std::string runRefs(const std::string& lang, const std::string& file0, const std::string& text) {
     Imported im;
-    import(im, lang, text);
+    import(im, lang, file0, text);
     if (im.outcome != "ok") return im.outcome;
     std::map<const Token*, int> m;
     int i = 0;
@@ -239,9 +242,9 @@ static std::string runRefs(const std::string& lang, const std::string& text) {
     return out;
 }
 
-static std::string runDump(const std::string& lang, const std::string& text) {
+static std::string runDump(const std::string& lang, const std::string& file0, const std::string& text) {
     Imported im;
-    import(im, lang, text);
+    import(im, lang, file0, text);
     if (im.outcome != "ok") return im.outcome;
     std::map<const Token*, int> m;
     int n = 0;
@@ -267,8 +270,8 @@ int main() {
             if (f.size() == 2 && f[0] == "split") out = runSplit(unhex(f[1]));
             else if (f.size() >= 2 && f[0] == "data" && (f.size() - 2) % 3 == 0) out = runData(f);
             else if (f.size() == 2 && f[0] == "loc") out = runLoc(f[1]);
-            else if (f.size() == 3 && f[0] == "refs") out = runRefs(f[1], unhex(f[2]));
-            else if (f.size() == 3 && f[0] == "dump") out = runDump(f[1], unhex(f[2]));
+            else if (f.size() == 4 && f[0] == "refs") out = runRefs(f[1], unhex(f[2]), unhex(f[3]));
+            else if (f.size() == 4 && f[0] == "dump") out = runDump(f[1], unhex(f[2]), unhex(f[3]));
         } catch (const std::exception& e) {
             out = std::string("exception ") + e.what();
         }
